@@ -56,13 +56,13 @@ mkrsa(const json_t *jwk)
     openssl_auto(BIGNUM) *bn = NULL;
     json_auto_t *exp = NULL;
     RSA *key = NULL;
-    int bits = 2048;
+    json_int_t bits = 2048;
 
-    if (json_unpack((json_t *) jwk, "{s?i,s?O}",
+    if (json_unpack((json_t *) jwk, "{s?I,s?O}",
                     "bits", &bits, "e", &exp) == -1)
         return NULL;
 
-    if (bits < 2048)
+    if (bits < 2048 || bits > OPENSSL_RSA_MAX_MODULUS_BITS)
         return NULL;
 
     if (!exp)
@@ -96,8 +96,7 @@ mkrsa(const json_t *jwk)
     if (!key)
         return NULL;
 
-    bits = RSA_generate_key_ex(key, bits, bn, NULL);
-    if (bits <= 0) {
+    if (RSA_generate_key_ex(key, (int) bits, bn, NULL) <= 0) {
         RSA_free(key);
         key = NULL;
     }
